@@ -15,7 +15,7 @@ from refs.fullstack import Stack, outcome
 from symx import vloop
 from symx.run import Check, Harness
 
-PHASES = ("idle", "in-flight", "awaiting-response", "queued", "reset-in-progress", "reset-just-acked")
+PHASES = ("idle", "in-flight", "awaiting-response", "queued", "reset-in-progress", "reset-just-acked", "after-timed-out-reset")
 KINDS = ("error", "rstack", "silent", "silent-caller-cancelled", "nak-then-silent", "lost-exc", "eof", "close")
 ERR_CODES = (0x51, 0x52, 0x00, 0x02, 0x53, 0xFF)
 RST_CODES = (0x00, 0x01, 0x02, 0x03, 0x06, 0x09, 0x0C, 0x51, 0x81, 0xFF)
@@ -25,7 +25,7 @@ T_BOUND = 10.0 + 1.6 + 4 * 3.2 + 1.0  # command timeout + the link's acknowledge
 
 class Failure(Harness):
     name = "c10_failure"
-    must_reach = ("error", "rstack", "silent", "silent-caller-cancelled", "nak-then-silent", "lost-exc", "eof", "close", "in-progress-ended", "queued-ended")
+    must_reach = ("error", "rstack", "silent", "silent-caller-cancelled", "nak-then-silent", "lost-exc", "eof", "close", "in-progress-ended", "queued-ended", "early-report")
     functions = ("AshProtocol.error_frame_received", "AshProtocol._enter_failed_state", "AshProtocol.connection_lost", "AshProtocol.eof_received",
                  "AshProtocol._write_frame", "Gateway.reset_received", "Gateway.connection_lost", "Gateway.eof_received", "Gateway.close",
                  "EZSP.enter_failed_state", "EZSP.connection_lost", "EZSP.close", "EZSP._command", "EZSP.stop_ezsp", "ProtocolHandler.command")
@@ -42,6 +42,7 @@ class Failure(Harness):
         if kind == "silent-caller-cancelled":
             # only where the cancelled caller's command is really the one on the dead line
             ctx.require(phase in ("idle", "in-flight"))
+        early = ctx.flag("early_power_on_report")
         code = None
         if kind == "error":
             code = err_codes[ctx.choice("code", len(err_codes))]
@@ -51,6 +52,11 @@ class Failure(Harness):
         async def main(loop):
             st = Stack(loop, V)
             ez, ncp = st.ez, st.ncp
+            if early:
+                # the adapter announces a power-on reset when its port is opened, before anybody listens
+                ctx.label("early-report")
+                st.wire.sink["n"](bytes(R.wire(R.rstack_frame(0x02))))
+                await asyncio.sleep(0.01)
             await ez.startup_reset()
             app_calls = []
             ez.add_callback(lambda *a: app_calls.append((loop.time(), a)))
@@ -92,6 +98,23 @@ class Failure(Harness):
                     ez.close()
 
             at = t0 + 0.5
+            if phase == "after-timed-out-reset":
+                # history: an earlier reset request went unanswered (timed out), its caller carried on
+                ctx.require(kind in ("lost-exc", "eof", "close"))
+                armed = [True]
+
+                def drop_rstack(d, i, data):
+                    if armed[0] and d == "n" and bytes(data)[:1] == b"\xc1":
+                        armed[0] = False
+                        return "drop"
+                    return "deliver"
+
+                st.wire.fault = drop_rstack
+                rr = await outcome(ez.reset())
+                ctx.check(rr[0] == "TimeoutError", "unanswered reset ended with %s" % rr[0], "history-setup")
+                st.wire.fault = None
+                at = loop.time() + 0.5
+                t0 = loop.time()
             if phase == "idle":
                 pass
             elif phase == "in-flight":
